@@ -36,12 +36,14 @@ Fixpoint key_ltb (a b : list string) : bool :=
 (* stable insertion sort by a strict order on keys *)
 Section Sort.
   Context {A K : Type} (key : A -> K) (ltb : K -> K -> bool).
+  (* x goes in front of the first element that is not strictly smaller: in front of its equals *)
   Fixpoint insert_stable (x : A) (l : list A) : list A :=
     match l with
     | [] => [x]
-    | y :: r => if ltb (key x) (key y) then x :: l else y :: insert_stable x r
+    | y :: r => if ltb (key y) (key x) then y :: insert_stable x r else x :: l
     end.
-  (* inserting from the right keeps equal keys in input order *)
+  (* inserting from the right, each element in front of its equals, keeps equal keys in input
+     order (like Python's sorted) *)
   Definition sort_stable (l : list A) : list A := fold_right insert_stable [] l.
 End Sort.
 
